@@ -112,6 +112,16 @@ def _role(P, name, ins, out):
     raise AnchorMissing("function `%s` not found (and %d functions have its signature)" % (name, len(cands)))
 
 
+def _gf(P):
+    """the field collector: (context, selection set, branch) -> the Left / Right fields"""
+    return _role(P, OT + "type_printer::get_fields_for_selection_set", ["QueryTypePrinterContext", "SelectionSet", "BranchingCondition"], "Either<")
+
+
+def _vis(P):
+    """the public selection visitor: (context, selection set, visitor function)"""
+    return _role(P, OT + "selection_set_visitor::visit_fields_in_selection_set", ["QueryTypePrinterContext", "SelectionSet", "FnMut"], "()")
+
+
 def _explore(P, R, rule, key, what, f, thunk, stops=()):
     """all abstract paths of `thunk`, or None after reporting the instance(s) `key` UNDECIDED"""
     try:
@@ -331,7 +341,7 @@ def _gf_paths(P, R, rule, keys):
     """(fn, abstract paths, {role: path}) of get_fields_for_selection_set on undetermined arguments; the type-condition filter, the skip test,
     the typing of nested selections and the recursion are not entered (they are events).  Memoised per program."""
     if id(P) not in _GF:
-        gf = P.fn(OT + "type_printer::get_fields_for_selection_set")
+        gf = _gf(P)
         cfc = _role(P, OT + "type_printer::check_fragment_condition", ["QueryTypePrinterContext", "ObjectDefinition", "str"], "bool")
         csd = _role(P, OT + "type_printer::check_skip_directive", ["BranchingCondition", "Directive"], "bool")
         gt = P.fn(OT + "type_printer::get_type_for_selection_set")
@@ -449,7 +459,7 @@ def _b_flag(P, R):
     """which leaf is `__typename` must be decided by the *field name*, not by the response key (alias)"""
     f = _inl(P, P.fn(OT + "selection_tree::to_ts::field_to_type"))
     pv = Prov(f)
-    gf = _inl(P, P.fn(OT + "type_printer::get_fields_for_selection_set"))
+    gf = _inl(P, _gf(P))
     pvf = Prov(gf)
     leaf_adt = ST + "SelectionTreeLeaf"
     name_atoms = set()
@@ -665,7 +675,7 @@ def _e_alias_spaces(P, R):
              "no abstract path of %s shows a field being collected together with the test of its alias" % gf.path, loc=gf.loc())
     go = P.fn(OT + "type_printer::get_object_type_for_selection_set")
     dm = P.fn(OT + "deep_merge::deep_merge_selection_tree")
-    gf0 = P.fn(OT + "type_printer::get_fields_for_selection_set")
+    gf0 = _gf(P)
     paths = _explore(P, R, "R02-e", "alias-spaces:builder", "which collected fields become the unaliased / aliased fields of a branch", go,
                      lambda ab: ab.call(go.path, _params(go, [])), [dm.path, gf0.path])
     if paths is None:
@@ -1025,7 +1035,7 @@ def _f_variables(P, R, rule="R02-f"):
     """every boolean variable of every @skip/@include of every selection is enumerated: (a) no path of the enumeration returns an empty list after
     having met a selection without handing the selection set to the visitor, (b) the traversal of a selection's directives is lossless"""
     f0 = _role(P, OT + "type_printer::get_boolean_variables", ["QueryTypePrinterContext", "SelectionSet"], "Vec<&")
-    vis = P.fn(OT + "selection_set_visitor::visit_fields_in_selection_set")
+    vis = _vis(P)
     # (a)
     paths = _explore(P, R, rule, "variables-every-selection", "whether every selection reaches the visitor", f0,
                      lambda ab: ab.call(f0.path, _params(f0, [])), [vis.path])
